@@ -223,6 +223,9 @@ func (r *Run) execBody(fn *ssa.Function, fi *fnInfo, args []Value, env []Value, 
 		fr.runBlocks()
 	}
 	r.depth = d0
+	if caller != nil {
+		r.lastFn = caller.info.name
+	}
 	return fr.result
 }
 
@@ -589,8 +592,8 @@ func (fr *frame) visit(in ssa.Instruction) cont {
 	case *ssa.MakeSlice:
 		ln := r.asInt(fr.get(in.Len))
 		cp := r.asInt(fr.get(in.Cap))
-		l := r.allocSize(ln, "makeslice: len out of range")
-		c := r.allocSize(cp, "makeslice: cap out of range")
+		l := r.allocSizeT(ln, in.Len.Type(), "makeslice: len out of range")
+		c := r.allocSizeT(cp, in.Cap.Type(), "makeslice: cap out of range")
 		if l > c {
 			panic(r.fault("makeslice: cap out of range", ""))
 		}
@@ -722,8 +725,12 @@ func (fr *frame) visit(in ssa.Instruction) cont {
 
 // allocSize turns a (possibly symbolic) size into a concrete one, checking the allocation cap.
 func (r *Run) allocSize(t *smt.Term, faultMsg string) int {
+	return r.allocSizeT(t, types.Typ[types.Int], faultMsg)
+}
+
+func (r *Run) allocSizeT(t *smt.Term, typ types.Type, faultMsg string) int {
 	B := r.B
-	t64 := B.Resize(t, 64, true)
+	t64 := B.Resize(t, 64, isSigned(typ))
 	if t64.IsConst() {
 		v := int64(t64.K)
 		if v < 0 {
